@@ -6,7 +6,7 @@ cd /repo || exit 2
 if [ -n "$(git status --porcelain --untracked-files=no)" ]; then echo "repo not clean"; exit 2; fi
 git apply "$PATCH" || { echo "patch does not apply"; exit 2; }
 cd /verif
-VERIF_SEED=$SEED ./check $ID --tier $TIER --out /verif/target/seed_eval_$ID.json > /verif/target/seed_eval_$ID.out 2>&1
+VERIF_REPLAY_DIR=/verif/target/seed_replays VERIF_SEED=$SEED ./check $ID --tier $TIER --out /verif/target/seed_eval_$ID.json > /verif/target/seed_eval_$ID.out 2>&1
 rc=$?
 git -C /repo checkout -- .
 grep -E "^VIOLATION|^  what" /verif/target/seed_eval_$ID.out | cut -c1-300 | head -6
